@@ -792,7 +792,11 @@ fn extract<'tcx>(tcx: TyCtxt<'tcx>, name: &str) -> J {
                 v.push(("trait_default_of", s(cx.path(tr))));
             }
         }
-        if derived {
+        let is_default = parent_impl
+            .and_then(|im| tcx.impl_opt_trait_ref(im))
+            .map(|tr| cx.path(tr.instantiate_identity().skip_norm_wip().def_id) == "core::default::Default")
+            .unwrap_or(false);
+        if derived && !is_default {
             fns.push(o(v));
             continue;
         }
